@@ -3,7 +3,7 @@
     kmipclient.Middleware / kmipserver.Middleware / kmipserver.BatchItemMiddleware values).
     The theorems of ChainProofs.v are about arbitrary [prog]; this syntax only names the
     programs that the generated cases use.  No proofs in this file. *)
-From Coq Require Import ZArith List Bool Arith.
+From Coq Require Import ZArith List Bool Arith Uint63.
 From KV Require Import Base Chain.
 Import ListNotations.
 Open Scope Z_scope.
@@ -247,46 +247,72 @@ Fixpoint cresps_eqb (a b : list cresp) : bool :=
   | _, _ => false
   end.
 
+(** Digest of a trace: its length and two polynomial hashes (mod 2^63, machine integers) of a flat
+    integer encoding of the events; the harness computes the same digest of the observed
+    trace.  Rows carry the digest always and the full trace for short traces and a sample. *)
+Definition enc_oz (o : option Z) : list Z := match o with Some x => [1; x] | None => [0; 0] end.
+Definition enc_ctx (c : cctx) : list Z := enc_oz (snd c) ++ len (fst c) :: fst c.
+Definition enc_res (r : cres) : list Z :=
+  match fst r with Some (id, st) => [1; id; st] | None => [0; 0; 0] end ++ enc_oz (snd r).
+Definition enc_event (e : cevent) : list Z :=
+  match e with
+  | EvEnter i c m => 1 :: Z.of_nat i :: m :: enc_ctx c
+  | EvBack i r => 2 :: Z.of_nat i :: enc_res r
+  | EvRet i r => 3 :: Z.of_nat i :: enc_res r
+  | EvPanic i => [4; Z.of_nat i]
+  | EvCore c m => 5 :: m :: enc_ctx c
+  end.
+Definition hash_step (mult h : int) (x : Z) : int := (h * mult + Uint63.of_Z x + 7)%uint63.
+Definition trace_hash (mult : int) (t : list cevent) : int :=
+  fold_left (fun h e => fold_left (hash_step mult) (enc_event e) h) t 1%uint63.
+Definition digest : Type := (Z * int * int)%type.
+Definition trace_digest (t : list cevent) : digest :=
+  (len t, trace_hash 1000003%uint63 t, trace_hash 998244353%uint63 t).
+Definition digest_eqb (a b : digest) : bool :=
+  match a, b with (l1, x1, y1), (l2, x2, y2) => (l1 =? l2) && Uint63.eqb x1 x2 && Uint63.eqb y1 y2 end.
+Definition trace_ok (t : list cevent) (d : digest) (full : option (list cevent)) : bool :=
+  digest_eqb (trace_digest t) d && match full with Some ot => trace_eqb t ot | None => true end.
+
 (** One row of the cases file: the chain, the handler script, the initial context tags,
     the request(s), and what the implementation was observed to do:
-    outcome, number of handler answers, trace. *)
-Definition row_client : Type := (list sprog * list Z * Z * (res cres * Z * list cevent))%type.
-Definition row_server : Type := (list sprog * list (option Z) * list Z * Z * (res (option cresp) * Z * list cevent))%type.
-Definition row_items : Type := (list sprog * list (option Z) * list Z * list Z * (res (list cresp) * Z * list cevent))%type.
+    outcome, number of handler answers, trace digest, optionally the trace. *)
+Definition row_client : Type := (list sprog * list Z * Z * (res cres * Z * digest * option (list cevent)))%type.
+Definition row_server : Type := (list sprog * list (option Z) * list Z * Z * (res (option cresp) * Z * digest * option (list cevent)))%type.
+Definition row_items : Type := (list sprog * list (option Z) * list Z * list Z * (res (list cresp) * Z * digest * option (list cevent)))%type.
 
-Definition row_nested : Type := (list sprog * list sprog * list (option Z) * list Z * Z * (res (option cresp) * Z * list cevent))%type.
+Definition row_nested : Type := (list sprog * list sprog * list (option Z) * list Z * Z * (res (option cresp) * Z * digest * option (list cevent)))%type.
 
 Definition row_nested_ok (mode : nat) (r : row_nested) : bool :=
   match r with
-  | (mchain, ichain, script, tags, m, (oo, on, ot)) =>
+  | (mchain, ichain, script, tags, m, (oo, on, od, ot)) =>
       match c_run_nested (match mode with 1%nat => false | _ => true end) mchain ichain script (tags, None) m with
-      | (o, (n, _), t) => res_eqb ocresp_eqb o oo && (n =? on) && trace_eqb t ot
+      | (o, (n, _), t) => res_eqb ocresp_eqb o oo && (n =? on) && trace_ok t od ot
       end
   end.
 
 Definition row_client_ok (mode : nat) (r : row_client) : bool :=
   match r with
-  | (chain, tags, m, (oo, on, ot)) =>
+  | (chain, tags, m, (oo, on, od, ot)) =>
       match (match mode with O => c_run_client true chain | 1%nat => c_run_client false chain | _ => c_cursor_client chain end)
               (tags, None) m with
-      | (o, (n, _), t) => res_eqb cres_eqb o oo && (n =? on) && trace_eqb (obs_trace KClient t) ot
+      | (o, (n, _), t) => res_eqb cres_eqb o oo && (n =? on) && trace_ok (obs_trace KClient t) od ot
       end
   end.
 
 Definition row_server_ok (mode : nat) (r : row_server) : bool :=
   match r with
-  | (chain, script, tags, m, (oo, on, ot)) =>
+  | (chain, script, tags, m, (oo, on, od, ot)) =>
       match (match mode with O => c_run_server true chain | 1%nat => c_run_server false chain | _ => c_cursor_server chain end)
               script (tags, None) m with
-      | (o, (n, _), t) => res_eqb ocresp_eqb o oo && (n =? on) && trace_eqb (obs_trace KServer t) ot
+      | (o, (n, _), t) => res_eqb ocresp_eqb o oo && (n =? on) && trace_ok (obs_trace KServer t) od ot
       end
   end.
 
 Definition row_items_ok (mode : nat) (r : row_items) : bool :=
   match r with
-  | (chain, script, tags, items, (oo, on, ot)) =>
+  | (chain, script, tags, items, (oo, on, od, ot)) =>
       match (match mode with O => c_run_items true chain | 1%nat => c_run_items false chain | _ => c_cursor_items chain end)
               script (tags, Some 0) items with
-      | (o, (n, _), t) => res_eqb cresps_eqb o oo && (n =? on) && trace_eqb (obs_trace KItem t) ot
+      | (o, (n, _), t) => res_eqb cresps_eqb o oo && (n =? on) && trace_ok (obs_trace KItem t) od ot
       end
   end.
